@@ -40,6 +40,20 @@ func specHasPrefix(c []byte, cur int, s []byte) bool {
 	return true
 }
 
+// placeFile adds f to fs and creates its reader. Both legal construction orders are used (readerFirst:
+// NewFile, NewReader, AddFile - the order of the repository's own JSON test; otherwise NewFile, AddFile, NewReader)
+func placeFile(fs *parsley.FileSet, f *text.File, readerFirst bool) *text.Reader {
+	var rd *text.Reader
+	if readerFirst {
+		rd = text.NewReader(f)
+	}
+	fs.AddFile(f)
+	if rd == nil {
+		rd = text.NewReader(f)
+	}
+	return rd
+}
+
 func specIsWs(b byte) bool { return b == ' ' || b == '\t' || b == '\n' || b == '\f' }
 
 // specWsRun: end of the whitespace run starting at cur and the first line break in it (-1: none)
